@@ -58,6 +58,15 @@ SEED_NOTES = {
     "C20-r7a": "caught after keysends through a stateless approver were added to the programs (first run: missed).",
     "C07-r7a": "caught after the replaced holder commitment also went through the raw entry point (first run: missed).",
     "C01-r7a": "caught by the carve-out filter dimension added in the same round.",
+    "C02-r8a": "caught after the carve-out filter also ran with the on-chain validator factory (written before the first run).",
+    "C07-r8a": "caught by the carve-out filter dimension added to C07 because of this change (written before the first run).",
+    "C08-r8a": "caught after the wire group got an input the request does not describe at all (written before the first run).",
+    "C10-r8a": "caught after a SetupChannel for a never-announced channel was added to the wire group (written before the first run).",
+    "C11-r8a": "caught after histories that start with a full header window were added (first run: missed).",
+    "C13-r8a": "caught after the harness kept its own record of the watched outpoints each block spends, plus a fixed case with 150 spends (first runs: missed).",
+    "C14-r8a": "caught by the fixed case added because of this change (101 blocks, restart, 100-block reorganisation; written before the first run).",
+    "C17-r8a": "the import into the local store is the cloud store's (C16): caught by C16 after sync batches carrying the last-writer record were added; the C17 check does not reach it.",
+    "C20-r8a": "caught after TipInfo through the root handler was added to the programs (the first run reported a false alarm of the harness instead, see DESIGN.md 8.5).",
     "C02-r7a": "a pure interleaving defect (two racing SetupChannel requests for one stub): not reachable by the single-threaded C02 histories; caught by the C20 check.",
 }
 
